@@ -64,3 +64,71 @@ Proof.
 Qed.
 
 End ReuseProofs.
+
+(** ** [ExecuteTo] is [ExecuteN] with a count, over the (possibly truncated) directory *)
+Section ReuseBound.
+Variable hash : Type.
+Variable hash_eqb : hash -> hash -> bool.
+Variable HS : bytes -> hash.
+Notation rev := (rev hash).
+Notation execute_to := (execute_to hash hash_eqb HS).
+Notation execute_n_of := (execute_n_of hash hash_eqb HS).
+
+Definition as_run (e : executor) (r : run_outcome * list rev * list bool * list (event hash))
+  : to_outcome * executor * list rev * list bool * list (event hash) :=
+  let '(ro, t', fs', es) := r in (TRun ro, e, t', fs', es).
+
+(** [ExecuteTo(v)], [v] before a checkpoint file: [ExecuteN(0)] over the directory truncated after [v]. *)
+Lemma execute_to_before_checkpoint e v (t : list rev) fs idx :
+  files_last_index (version_is v) (e_dir e) = Some idx ->
+  existsb f_ckpt (skipn (S idx) (e_dir e)) = true ->
+  execute_to e v t fs =
+  as_run e (execute_n hash hash_eqb HS (e_cfg e) 0 (firstn (S idx) (e_dir e)) t fs).
+Proof.
+  destruct e as [c d]. cbn [e_cfg e_dir]. intros H1 H2.
+  unfold ReuseModel.execute_to, execute_n, as_run, exec_chosen. cbn [set_dir e_cfg e_dir]. rewrite H1, H2.
+  cbn [set_dir e_cfg e_dir].
+  destruct (pending c (firstn (S idx) d) (read_revisions hash t)) as [p w].
+  destruct w as [r|].
+  - destruct (write t fs r) as [[[ok t1] fs1] e1]. destruct ok; cbn [negb]; [|reflexivity].
+    destruct p; try reflexivity. cbn [Nat.ltb Nat.leb].
+    destruct (exec_files hash hash_eqb HS fs0 t1 fs1) as [[[o t2] fs2] es]. reflexivity.
+  - cbn [negb]. destruct p; try reflexivity. cbn [Nat.ltb Nat.leb].
+    destruct (exec_files hash hash_eqb HS fs0 t fs) as [[[o t2] fs2] es]. reflexivity.
+Qed.
+
+(** [ExecuteTo(v)], no checkpoint file after [v]: [ExecuteN(i+1)] where [i] is the position of [v]
+    among the pending files; when [v] is not pending nothing is executed. *)
+Lemma execute_to_bounded e v (t : list rev) fs idx :
+  files_last_index (version_is v) (e_dir e) = Some idx ->
+  existsb f_ckpt (skipn (S idx) (e_dir e)) = false ->
+  match fst (pending_of hash e t) with
+  | PFiles files =>
+      match files_last_index (version_is v) files with
+      | Some i => execute_to e v t fs = as_run e (execute_n_of e (S i) t fs)
+      | None =>
+          let '(o, e', t', _, es) := execute_to e v t fs in
+          e' = e /\ exec_events es = [] /\ (o = TNotFound \/ o = TRun (RPend PWriteErr))
+      end
+  | _ => execute_to e v t fs = as_run e (execute_n_of e 0 t fs)
+  end.
+Proof.
+  destruct e as [c d]. cbn [e_cfg e_dir]. intros H1 H2.
+  unfold ReuseModel.execute_to, ReuseModel.execute_n_of, execute_n, as_run, exec_chosen, pending_of.
+  cbn [e_cfg e_dir]. rewrite H1, H2.
+  destruct (pending c d (read_revisions hash t)) as [p w]. cbn [fst].
+  destruct p as [files| | | | | |];
+    try (destruct w as [r|]; [destruct (write t fs r) as [[[ok t1] fs1] e1]; destruct ok|]; reflexivity).
+  destruct (files_last_index (version_is v) files) as [i|]; cbn [option_map].
+  - destruct w as [r|].
+    + destruct (write t fs r) as [[[ok t1] fs1] e1]. destruct ok; cbn [negb]; [|reflexivity].
+      change (0 <? S i) with true. cbv iota.
+      destruct (exec_files hash hash_eqb HS (firstn (S i) files) t1 fs1) as [[[o t2] fs2] es]. reflexivity.
+    + cbn [negb]. change (0 <? S i) with true. cbv iota.
+      destruct (exec_files hash hash_eqb HS (firstn (S i) files) t fs) as [[[o t2] fs2] es]. reflexivity.
+  - destruct w as [r|].
+    + unfold write. destruct (pop fs) as [b fs1]. destruct b; cbn [negb]; (split; [reflexivity|]); (split; [reflexivity|]); auto.
+    + cbn [negb]. split; [reflexivity|]. split; [reflexivity|]. auto.
+Qed.
+
+End ReuseBound.
